@@ -346,8 +346,8 @@ func (h *H) Run(cc core.Cfg, sim *simrt.Sim) *core.Outcome {
 				}
 				ctx, _ := simrt.ContextWithCancel(context.Background())
 				p.SetOutput(&pipeline.OutputPluginInfo{PluginStaticInfo: &pipeline.PluginStaticInfo{Type: "simsink"}, PluginRuntimeInfo: &pipeline.PluginRuntimeInfo{Plugin: &simsink.Plugin{Cfg: cfg.Sink, Obs: r, Ctx: ctx}}})
-				curPipe = p
 				p.Start()
+				curPipe = p // only a started pipeline is stopped gracefully (file.d never stops one that is still starting)
 			})
 		}
 		grp := startIncarnation()
